@@ -133,6 +133,17 @@ def engine_pattern(r):
     return pat
 
 
+def _cr_class(u):
+    """does the pattern hold a character class that CR belongs to (a negated class, \\W, a class naming CR)?"""
+    if not isinstance(u, dict):
+        return False
+    if u.get("k") == "cls" and (u.get("neg") or 13 in u.get("s", [])):
+        return True
+    if u.get("k") == "wcls" and u.get("neg"):
+        return True
+    return any(_cr_class(u.get(f)) for f in ("a", "b"))
+
+
 def classify(r, why, lines):
     """Mechanism of a disagreement (matched against known_findings.jsonl)."""
     out = {}
@@ -140,7 +151,8 @@ def classify(r, why, lines):
         return out
     o = r["o"]
     miss, extra = why["missing"], why["extra"]
-    if o["crlf"] and miss and not extra and all(13 in lines[i - 1] for i in miss):
+    if o["crlf"] and miss and not extra and all(13 in lines[i - 1] for i in miss) and any(_cr_class(p) for p in r["pats"]):
+        # (only for patterns holding a class of which CR is a member: that is what the stripping alters)
         out["crlf_bare_cr"] = True
         return out
     key = json.dumps([r["pats"], o, r["fixed"]], sort_keys=True)
